@@ -168,7 +168,9 @@ HookV1(s, c) == DebtUnit1(SurplusUnit1(s, c, s.fl), c, s.fl)
 
 (* ======================= generation 2: block ======================= *)
 
-(* LiquidateForSurplusAndDebt -> CheckStatsForSurplusAndDebt (not atomic; an error stops the pass) *)
+(* LiquidateForSurplusAndDebt -> CheckStatsForSurplusAndDebt (not atomic; an error stops the pass).             *)
+(* A surplus auction only CHECKS that the net fees can spare the lot: the lot stays in the collector (and in    *)
+(* the net fees) until the auction closes.                                                                    *)
 StartV2(s, c) ==
   IF s.fl.active \/ ~s.nfFound THEN s
   ELSE LET s1 == IF s.nf <= c.DT - c.L /\ s.fl.debt
@@ -176,39 +178,39 @@ StartV2(s, c) ==
                                 !.auc = Append(@, NewAuc(2, "debt", s.n2 + 1, c.DL, c.DL, s.t + c.A2))]
                  ELSE s
        IN IF s.nf >= c.ST + c.L /\ s.fl.sur
-          THEN IF ~(s1.nf - c.L > 0) \/ ~Has(s1.bal, "col", CMST, c.L) THEN s1
-               ELSE [s1 EXCEPT !.bal = Move(@, "col", "a1", CMST, c.L),        \* the lot goes to the GENERATION-1 auction account
-                               !.nf = @ - c.L, !.n2 = @ + 1, !.fl.active = TRUE,
+          THEN IF ~(s1.nf - c.L > 0) THEN s1
+               ELSE [s1 EXCEPT !.n2 = @ + 1, !.fl.active = TRUE,
                                !.auc = Append(@, NewAuc(2, "surplus", s1.n2 + 1, c.L, 0, s.t + c.A2))]
           ELSE s1
 
-(* CloseEnglishAuction as the code does it. book \in {"gov","stable"}: which amount a debt close adds to the   *)
-(* net fees - the code books the gov-token amount (deviation V2DebtBooksGov), the intended value is the     *)
-(* stable amount that entered the collector.                                                                 *)
-CloseV2(s, c, i, book) ==
+(* CloseEnglishAuction. surplus: the lot leaves the collector for the winner and the net fees are lowered by it  *)
+(* (DecreaseNetFeeCollectedData refuses to go below zero), the bid is burnt; debt: the gov lot is minted to the   *)
+(* winner, the stable payment enters the collector and the net fees rise by exactly that payment; generic: lot  *)
+(* to the winner, payment to the external initiator.                                                            *)
+CloseV2(s, c, i) ==
   LET a == s.auc[i] IN
   IF a.kind = "surplus"
-  THEN IF ~Has(s.bal, "col", CMST, a.lot) \/ ~s.tm \/ a.bid <= 0 THEN Fail(s)
-       ELSE Ok([s EXCEPT !.bal = Debit(Move(@, "col", a.bidder, CMST, a.lot), "a2", HARBOR, a.bid),   \* deviation V2SurplusPaysTwice
-                         !.nf = @ + a.lot, !.fl.active = FALSE, !.auc = RemoveAt(@, i)])
+  THEN IF ~Has(s.bal, "col", CMST, a.lot) \/ ~s.tm \/ a.bid <= 0 \/ ~s.nfFound \/ s.nf - a.lot < 0 THEN Fail(s)
+       ELSE Ok([s EXCEPT !.bal = Debit(Move(@, "col", a.bidder, CMST, a.lot), "a2", HARBOR, a.bid),
+                         !.nf = @ - a.lot, !.fl.active = FALSE, !.auc = RemoveAt(@, i)])
   ELSE IF a.kind = "debt"
   THEN IF ~s.tm THEN Fail(s)
        ELSE Ok([s EXCEPT !.bal = Move(IF a.lot > 0 THEN Credit(@, a.bidder, HARBOR, a.lot) ELSE @, "a2", "col", CMST, a.pay),
-                         !.nf = @ + (IF book = "gov" THEN a.lot ELSE a.pay), !.nfFound = TRUE,
+                         !.nf = @ + a.pay, !.nfFound = TRUE,
                          !.fl.active = FALSE, !.auc = RemoveAt(@, i)])
   ELSE Ok([s EXCEPT !.bal = Move(Move(@, "a2", a.bidder, ATOM, a.lot), "a2", "ext", CMST, a.pay), !.auc = RemoveAt(@, i)])
 
 (* AuctionIterator: each auction is its own all-or-nothing unit *)
-RECURSIVE Iterate2(_, _, _, _)
-Iterate2(s, c, i, book) ==
+RECURSIVE Iterate2(_, _, _)
+Iterate2(s, c, i) ==
   IF i > Len(s.auc) THEN s
   ELSE LET a == s.auc[i] IN
-    IF a.gen # 2 \/ ~(s.t > a.endT) THEN Iterate2(s, c, i + 1, book)
-    ELSE IF a.nb = 0 THEN Iterate2([s EXCEPT !.auc[i].endT = s.t + c.A2, !.auc[i].bidEndT = s.t + c.A2], c, i + 1, book)
-    ELSE LET r == CloseV2(s, c, i, book) IN
-         IF r.ok THEN Iterate2(r.st, c, i, book) ELSE Iterate2(s, c, i + 1, book)
+    IF a.gen # 2 \/ ~(s.t > a.endT) THEN Iterate2(s, c, i + 1)
+    ELSE IF a.nb = 0 THEN Iterate2([s EXCEPT !.auc[i].endT = s.t + c.A2, !.auc[i].bidEndT = s.t + c.A2], c, i + 1)
+    ELSE LET r == CloseV2(s, c, i) IN
+         IF r.ok THEN Iterate2(r.st, c, i) ELSE Iterate2(s, c, i + 1)
 
-Block(s, c, dt, book) == Iterate2(StartV2([s EXCEPT !.t = @ + dt], c), c, 1, book)
+Block(s, c, dt) == Iterate2(StartV2([s EXCEPT !.t = @ + dt], c), c, 1)
 
 (* ======================= environment ======================= *)
 StartGeneric(s, c, lot, minBid) ==
